@@ -35,6 +35,7 @@ RULE = (
     ' Round 6: lost-link cases reconnect on the same object and read from the new connection; duplex cases issue 2-3 concurrent writes under back-pressure (bytes must be the lines in call order).'
     ' Round 7: cases also run with the library at DEBUG; use after a failed connect must raise a transport error.'
     ' Round 8: `cancel_read k`; read-side EOF followed by a write on the open connection.'
+    ' Round 9: the in-memory transport keeps the written objects by reference; EAGAIN/EINTR/ENOSPC/... among link errors.'
 )
 ASSUMPTIONS = [
     "asyncio.StreamReader.readuntil semantics for over-long lines (data stays in the reader) are trusted; no recovery is demanded after them",
